@@ -8,8 +8,8 @@ TECH = 'Verus contracts on functions extracted verbatim from /repo (deductive, Z
 
 CHECKS = {
     'C01': dict(
-        text='Proof of per-function obligations (partial): W -- the significant words (tokens evaluation can see, and comments) of a node are carried by the document in the same order in every layout, nothing added, dropped, duplicated or reordered -- for the flow engine, 16 flow-based converters (named and keyed pairs included) and their wrappers, the leaf converters, the dispatchers convert_expr/convert_expr_impl/convert_pattern, func_call.rs (callee + parenthesized part [convert_parenthesized_args proved from the list engine] + trailing content blocks; convert_args_in_math proved from the flow engine, every `,` and `;` re-emitted), the list engine (items + free comments + pending `#` carry exactly the words of the children consumed; print_doc in all three fold styles emits delimiters + those words) and convert_array/destructuring/params/parenthesized_impl built on it, convert_binary, the chain engine (print_doc; process / process_resolved under the chain hypothesis) with convert_dot_chain, try_convert_dot_chain and convert_binary_chain for chains without `not in`, convert_math and the markup engine (line representation == children in order; one piece per entry); the mode/parenthesis guard G (exact shape of optional_paren; only self-delimited constructs go unprotected; bodies evaluated in continued-code mode; the code argument printers are never used in math; the items of a row of a 2-d math argument stay in math mode; binary-chain operator text comes from the operand itself); the paren-removal gate; the table reflow gate; S: a single list item keeps its separator in every layout (`(1,)`, `(a,)`) and the converters ask for it; exact spacing contract of the flow engine; exact Context/Mode helpers (also Kani, complete); exact newline recognition.',
-        note="Partial: W is ASSUMED (clause `words_preserved assumed`, listed in evidence) for dict, equation, binary chains containing `not in`, try_convert_dot_chain_plain, table, import, raw, math_delimited, reference, convert_additional_args, and for convert_closure / convert_for_loop (their look-ahead state sits behind an untracked cell, rule R29: proved in every state is only that whatever is emitted for a child carries exactly that child's words); context passing: unwrapped bodies keep the context they were given (exact postcondition over the uninterpreted expr_doc_s); the parser and the renderer are outside the contracts, so tree equivalence itself is never concluded. Known findings C01-F2..F5 are printed, not proved. Trusted: shims, parser facts PF0-PF18 (validated on the corpus in the thorough tier).",
+        text='Proof of per-function obligations (partial): W -- the significant words (tokens evaluation can see, and comments) of a node are carried by the document in the same order in every layout, nothing added, dropped, duplicated or reordered -- for the flow engine, 16 flow-based converters (named and keyed pairs included) and their wrappers, the leaf converters, the dispatchers convert_expr/convert_expr_impl/convert_pattern, func_call.rs (callee + parenthesized part [convert_parenthesized_args proved from the list engine] + trailing content blocks; convert_args_in_math proved from the flow engine, every `,` and `;` re-emitted), the list engine (items + free comments + pending `#` carry exactly the words of the children consumed; print_doc in all three fold styles emits delimiters + those words) and convert_array/destructuring/params/parenthesized_impl/parenthesized/code_block built on it, convert_field_access_plain, convert_binary, the chain engine (print_doc; process / process_resolved under the chain hypothesis) with convert_dot_chain, try_convert_dot_chain and convert_binary_chain for chains without `not in`, convert_math and the markup engine (line representation == children in order; one piece per entry); the mode/parenthesis guard G (exact shape of optional_paren; only self-delimited constructs go unprotected; bodies evaluated in continued-code mode; the code argument printers are never used in math; the items of a row of a 2-d math argument stay in math mode; binary-chain operator text comes from the operand itself); the paren-removal gate; the table reflow gate; S: a single list item keeps its separator in every layout (`(1,)`, `(a,)`) and the converters ask for it; exact spacing contract of the flow engine; exact Context/Mode helpers (also Kani, complete); exact newline recognition.',
+        note="Partial: W is ASSUMED (clause `words_preserved assumed`, listed in evidence) for dict, equation, binary chains containing `not in`, try_convert_dot_chain_plain, table, import, raw, math_delimited, math primes, reference, convert_additional_args, convert_parenthesized_args_as_list, and for convert_closure / convert_for_loop (their look-ahead state sits behind an untracked cell, rule R29: proved in every state is only that whatever is emitted for a child carries exactly that child's words); context passing: unwrapped bodies keep the context they were given (exact postcondition over the uninterpreted expr_doc_s); the parser and the renderer are outside the contracts, so tree equivalence itself is never concluded. Known findings C01-F2..F5 are printed, not proved. Trusted: shims, parser facts PF0-PF18 (validated on the corpus in the thorough tier).",
         ref='DESIGN.md 5/C01', technique=TECH),
     'C04': dict(
         text='Proof of per-function obligations (partial): line-comment transformer safety T -- over every layout the renderer can choose, no text ever follows an unterminated `//` comment and every converter result ends outside a comment -- for the flow, list, chain and plain layout engines, the markup and math engines and every converter built on them; the optional-parenthesis guard G (exact shape of optional_paren; unprotected only for self-delimited constructs; body evaluated in continued-code mode, delimiters matching the mode).',
